@@ -3,7 +3,7 @@ import copy, random
 from tools import vlib, t3
 
 MODULE = "PropC16"
-THEOREMS = ["C16_code_conforms", "C16_refuses_before_start", "C16_ready_flag", "C16_dangling_drained", "C16_closure", "C16_runto_exact", "C16_closed_upward", "C16_example"]
+THEOREMS = ["C16_code_conforms", "C16_refuses_before_start", "C16_driver_is_checked", "C16_started_are_checked", "C16_unready_refused", "C16_ready_runs", "C16_driver_unchecked_refuted_before_repair", "C16_ready_flag", "C16_dangling_drained", "C16_closure", "C16_runto_exact", "C16_closed_upward", "C16_example"]
 
 
 def unconnected_case(args):
@@ -13,6 +13,14 @@ def unconnected_case(args):
     procs = sp.procs()
     p = rng.choice(procs)
     which = rng.choice(["in", "param"])
+    if i % 4 == 3:
+        # the unconnected port belongs to a process without out-ports (which replaces the sink as the driver of the run)
+        idxs = [k for k, n in enumerate(sp.nodes) if n[0] == "PROC"]
+        u = rng.choice(idxs)
+        p = t3.Proc("leafz", kind="cat", ins=[("x", [(u, sp.nodes[u][1].outs[0][0])])], outs=[])
+        sp.proc(p)
+        if which == "in":
+            p.ins.append(("y", [(u, sp.nodes[u][1].outs[0][0])]))
     if which == "param":
         p.pars = list(p.pars) + [("zz", ("N",))]
     else:
